@@ -49,6 +49,64 @@ def var_name(x):
     return None
 
 
+def plain_lhs(lhs):
+    """the variable node a store of the form `*&v = ...` writes (an out-parameter that became the caller's `&v` when
+    the helper was inlined), else None"""
+    l = strip(lhs)
+    if isinstance(l, dict) and l.get('k') == 'deref':
+        a = strip(l.get('e'))
+        if isinstance(a, dict) and a.get('k') == 'addr':
+            v = strip(a.get('e'))
+            if isinstance(v, dict) and v.get('k') == 'var':
+                return v
+    return None
+
+
+def escaped_locals(g):
+    """names of the variables whose address leaves the analysed code: taken anywhere except (a) directly under a
+    dereference (`*&v`), (b) as an argument of a call whose body was inlined (the callee's uses of the parameter are
+    then in sight, with `&v` in its place), (c) in a bare read of the address value"""
+    esc = set()
+
+    def visit(n, under_deref):
+        if isinstance(n, list):
+            for y in n:
+                visit(y, False)
+            return
+        if not isinstance(n, dict):
+            return
+        k = n.get('k')
+        if k == 'addr':
+            v = strip(n.get('e'))
+            if isinstance(v, dict) and v.get('k') == 'var':
+                if not under_deref:
+                    esc.add(v['name'])
+                return
+        for key, v in n.items():
+            if key == 'sizeof' or not isinstance(v, (dict, list)):
+                continue
+            if k == 'deref' and key == 'e':
+                visit(v, True)
+            elif k in ('load', 'cast') and key == 'e':
+                visit(v, under_deref)
+            else:
+                visit(v, False)
+    for e in g.events():
+        if e['ev'] == 'enter':
+            continue
+        if e['ev'] == 'load':
+            t = strip(e.get('e'))
+            if isinstance(t, dict) and t.get('k') == 'addr':
+                continue
+        for key, v in e.items():
+            if isinstance(v, (dict, list)) and key not in ('chain',):
+                visit(v, False)
+    for b in g.blocks.values():
+        if b.term and isinstance(b.term.get('cond'), dict):
+            visit(b.term['cond'], False)
+    return esc
+
+
 def intlit(s):
     try:
         return int(s)
@@ -85,13 +143,162 @@ def _pure_path(x):
     return True
 
 
+_FLIP = {'<': '>', '<=': '>=', '>': '<', '>=': '<=', '==': '==', '!=': '!='}
+# what an atom `x OP U` (U symbolic, not mentioning x) becomes when x is lowered / raised by a positive amount
+_AFTER_DEC = {'==': '<', '<=': '<', '<': '<', '>': '>='}
+_AFTER_INC = {'==': '>', '>=': '>', '>': '>', '<': '<='}
+# the strongest relation implied by either of two relations between the same operands (join of two paths)
+_WEAKEN = {frozenset(('==', '<')): '<=', frozenset(('==', '<=')): '<=', frozenset(('<', '<=')): '<=',
+           frozenset(('==', '>')): '>=', frozenset(('==', '>=')): '>=', frozenset(('>', '>=')): '>=',
+           frozenset(('<', '>')): '!=', frozenset(('<', '!=')): '!=', frozenset(('>', '!=')): '!='}
+
+
+def _word_in(name, text):
+    return re.search(r'(?<![\w.>~@#])%s(?![\w~@#])' % re.escape(name), text) is not None
+
+
+def _shift_atoms(S, name, delta):
+    """atoms after the plain local `name` was changed by `delta` (a non-zero integer; only its sign matters for
+    relations with a symbolic operand): numeric bounds move along, `x == U` / `x <= U` become `x < U` after a
+    decrement, ... ; atoms that mention the local in any other way are dropped"""
+    vk = ('var', name)
+    out = set()
+    tab = _AFTER_DEC if delta < 0 else _AFTER_INC
+    for a in S:
+        if vk not in a[3]:
+            out.add(a)
+            continue
+        op, lc, rc = a[0], a[1], a[2]
+        if op == 'from++':
+            continue
+        if rc == name and lc != name and not _word_in(name, lc):
+            op, lc, rc = _FLIP.get(op), rc, lc
+        if op is None or lc != name or _word_in(name, rc):
+            continue
+        n = intlit(rc)
+        if n is not None:
+            out.add((op, lc, str(n + delta), a[3]))
+        elif op in tab:
+            out.add((tab[op], lc, rc, a[3]))
+    return frozenset(out)
+
+
+def _num_interval(S, lc):
+    lo, hi, keys = -INF, INF, None
+    for a in S:
+        if a[1] != lc:
+            continue
+        n = intlit(a[2])
+        if n is None:
+            continue
+        keys = a[3] if keys is None else keys
+        if a[0] == '==':
+            lo, hi = max(lo, n), min(hi, n)
+        elif a[0] == '<':
+            hi = min(hi, n - 1)
+        elif a[0] == '<=':
+            hi = min(hi, n)
+        elif a[0] == '>':
+            lo = max(lo, n + 1)
+        elif a[0] == '>=':
+            lo = max(lo, n)
+    return lo, hi, keys
+
+
+def _join_atoms(old, new):
+    """atoms that hold whichever of two paths was taken: the common ones, for two different relations between the same
+    operands the weakest relation that both imply, and for numeric facts about one spelling the hull of the two
+    intervals (widened: a bound that moved since `old` is given up, so loops converge)"""
+    common = old & new
+    ra, rb = old - common, new - common
+    if not ra or not rb:
+        return common
+    out = set(common)
+    by = {}
+    for x in new:
+        by.setdefault((x[1], x[2]), []).append(x)
+    for x in ra:
+        if intlit(x[2]) is not None or x[0] == 'from++':
+            continue
+        for y in by.get((x[1], x[2]), ()):
+            if y[0] == x[0] or y[0] == 'from++':
+                continue
+            w = _WEAKEN.get(frozenset((x[0], y[0])))
+            if w:
+                out.add((w, x[1], x[2], x[3] | y[3]))
+    for lc in {x[1] for x in ra if intlit(x[2]) is not None} & {x[1] for x in rb if intlit(x[2]) is not None}:
+        alo, ahi, ak = _num_interval(old, lc)
+        blo, bhi, bk = _num_interval(new, lc)
+        if ak is None or bk is None:
+            continue
+        keys = ak | bk
+        lo, hi = min(alo, blo), max(ahi, bhi)
+        if lo < alo:
+            lo = -INF
+        if hi > ahi:
+            hi = INF
+        if lo != -INF:
+            out.add(('>=', lc, str(int(lo)), keys))
+        if hi != INF:
+            out.add(('<=', lc, str(int(hi)), keys))
+    return frozenset(out)
+
+
+def _cond_atoms(c, pol):
+    """norm_cond with operands of the form x++ / --x resolved: the step is a store event of its own that precedes the
+    branch, so on the edge the variable already has its new value; an atom about the old value (postfix) is restated
+    for the new one"""
+    out = []
+    for (op, lc, rc, l, r) in norm_cond(c, pol):
+        if op == 'const':
+            out.append((op, lc, rc, l, r))
+            continue
+        l0 = strip(l)
+        if isinstance(l0, dict) and l0.get('k') == 'incdec' and _pure_path(l0['e']) and op in _FLIP and lc == canon(l):
+            x = l0['e']
+            n = intlit(rc)
+            if l0.get('prefix'):
+                out.append((op, canon(x), rc, x, r))
+            elif n is not None:
+                out.append((op, canon(x), str(n - 1 if l0['op'] == '--' else n + 1), x, r))
+            else:
+                tab = _AFTER_DEC if l0['op'] == '--' else _AFTER_INC
+                if op in tab and op != '==':
+                    out.append((tab[op], canon(x), rc, x, r))
+            continue
+        out.append((op, lc, rc, l, r))
+    return out
+
+
 def holding2(fn, user_call_kills=True):
+    """Branch atoms (op, lhs spelling, rhs spelling, kill keys) that hold at every program point.  Beyond
+    analyses.holding: an atom spelled with a caching local depends on that local only; stepping a plain local moves
+    its atoms along instead of dropping them (`i = n; while (i-- > 0)` keeps `i < n`); a copy `x = y` / `x = y - c`
+    relates x to y; the join weakens instead of dropping (`i == n` on entry and `i < n` on the back edge: `i <= n`)."""
     def gen(blk, si):
         atoms = []
+        if blk.term and blk.term.get('cls') == 'SwitchStmt' and blk.term.get('cond') is not None:
+            # `switch (x)`: x == v on the edge of `case v`, x != every case value on the default edge (under every
+            # spelling of x: the expression itself and the local it was cached in)
+            cases = blk.term.get('cases') or []
+            c = blk.term['cond']
+            if si < len(cases) and _pure_path(c):
+                me = cases[si]
+                same_target = [cv for k_, cv in enumerate(cases) if k_ < len(blk.succ) and blk.succ[k_] == blk.succ[si]]
+                sp = {canon(c)} | set(names_of(c))
+                for nm in sp:
+                    keys = frozenset(_akeys(nm, c))
+                    if me != 'default' and isinstance(me, int) and len(same_target) == 1:
+                        atoms.append(('==', nm, str(me), keys))
+                    elif me == 'default' and len(same_target) == 1:
+                        for cv in cases:
+                            if isinstance(cv, int):
+                                atoms.append(('!=', nm, str(cv), keys))
+            return atoms
         if blk.term and len(blk.succ) == 2 and blk.term.get('cls') not in ('SwitchStmt', 'MethodDispatch'):
             c = blk.term.get('cond')
             if c is not None:
-                for (op, lc, rc, l, r) in norm_cond(c, si == 0):
+                for (op, lc, rc, l, r) in _cond_atoms(c, si == 0):
                     if op == 'const':
                         continue
                     atoms.append((op, lc, rc, frozenset(_akeys(lc, l) | _akeys(rc, r))))
@@ -107,6 +314,16 @@ def holding2(fn, user_call_kills=True):
         ev = e['ev']
         if ev == 'store':
             l = strip(e['lhs'])
+            if plain_lhs(e['lhs']) is not None:
+                l = plain_lhs(e['lhs'])
+                e = dict(e, lhs=l)
+            op = e.get('op')
+            if l.get('k') == 'var' and op in ('++', '--'):
+                return _shift_atoms(S, l['name'], 1 if op == '++' else -1)
+            if l.get('k') == 'var' and op in ('+=', '-=') and intlit(canon(e['rhs'])) is not None and intlit(canon(e['rhs'])) != 0 \
+                    and isinstance(strip(e['rhs']), dict) and strip(e['rhs']).get('k') == 'int':
+                d = intlit(canon(e['rhs'])) * (1 if op == '+=' else -1)
+                return _shift_atoms(S, l['name'], d)
             kills = set(lvalue_steps(e['lhs']))
             if l.get('k') == 'var':
                 kills.add(('var', l['name']))
@@ -120,21 +337,39 @@ def holding2(fn, user_call_kills=True):
             S2 = frozenset(a for a in S if not (a[3] & kills) or (rc_ is not None and a[1] == rc_ and a[2].lstrip('-').isdigit()))
             if e['op'] == '=' and 'rhs' in e:
                 v0 = strip(e['rhs'])
-                if isinstance(v0, dict) and v0.get('k') == 'incdec' and v0['op'] == '++' and not v0['prefix']:
-                    S2 = S2 | {('from++', canon(e['lhs']), canon(v0['e']), frozenset(_mem_keys(e['lhs'])))}
+                lcn = canon(e['lhs'])
                 lkeys = frozenset({('var', l['name'])}) if l.get('k') == 'var' else frozenset(_mem_keys(e['lhs']))
+                if isinstance(v0, dict) and v0.get('k') == 'incdec' and _pure_path(v0['e']):
+                    tgt = canon(v0['e'])
+                    tk = frozenset(_mem_keys(v0['e']))
+                    if v0['op'] == '++' and not v0['prefix']:
+                        S2 = S2 | {('from++', lcn, tgt, frozenset(_mem_keys(e['lhs']))), ('<', lcn, tgt, lkeys | tk)}
+                    elif v0['prefix']:
+                        S2 = S2 | {('==', lcn, tgt, lkeys | tk)}          # the value of --E / ++E is the new E
+                    else:
+                        S2 = S2 | {('>', lcn, tgt, lkeys | tk)}           # E-- yields the old, larger value
                 if isinstance(v0, dict) and v0.get('k') in ('int', 'null'):
-                    S2 = S2 | {('==', canon(e['lhs']), '0' if v0.get('k') == 'null' else str(v0['v']), lkeys)}
-                if isinstance(v0, dict) and v0.get('k') == 'member' and l.get('k') == 'var' and _pure_path(v0):
-                    # a local caching a memory read: equal until either side is written
-                    S2 = S2 | {('==', l['name'], canon(v0), frozenset({('var', l['name'])} | _mem_keys(v0)))}
+                    S2 = S2 | {('==', lcn, '0' if v0.get('k') == 'null' else str(v0['v']), lkeys)}
+                if isinstance(v0, dict) and l.get('k') == 'var' and _pure_path(v0):
+                    # a local assigned a value read elsewhere: related to it until either side is written
+                    rel, src = None, None
+                    if v0.get('k') == 'member' or (v0.get('k') == 'var' and v0.get('vk') in ('local', 'param') and v0['name'] != l['name']):
+                        rel, src = '==', v0
+                    elif v0.get('k') == 'bin' and v0['op'] in ('+', '-') and isinstance(strip(v0['r']), dict) \
+                            and strip(v0['r']).get('k') == 'int' and strip(v0['r'])['v'] > 0:
+                        b0 = strip(v0['l'])
+                        if isinstance(b0, dict) and (b0.get('k') == 'member' or (b0.get('k') == 'var' and b0.get('vk') in ('local', 'param')
+                                                                                      and b0['name'] != l['name'])):
+                            rel, src = ('<' if v0['op'] == '-' else '>'), b0
+                    if rel is not None and not _word_in(l['name'], canon(src)):
+                        S2 = S2 | {(rel, l['name'], canon(src), frozenset({('var', l['name'])} | _mem_keys(src)))}
                 if isinstance(v0, dict) and v0.get('k') in ('var', 'member'):
                     vc = canon(v0)
                     for a in S:
                         if a[1] == vc and a[2].lstrip('-').isdigit() and a[0] in ('==', '!=', '<', '<=', '>', '>='):
-                            S2 = S2 | {(a[0], canon(e['lhs']), a[2], lkeys)}
+                            S2 = S2 | {(a[0], lcn, a[2], lkeys)}
                         if a[0] == 'from++' and a[1] == vc:
-                            S2 = S2 | {('from++', canon(e['lhs']), a[2], lkeys)}
+                            S2 = S2 | {('from++', lcn, a[2], lkeys)}
             return S2
         if ev == 'decl' and 'init' in e:
             return frozenset(a for a in S if ('var', e['name']) not in a[3])
@@ -157,7 +392,7 @@ def holding2(fn, user_call_kills=True):
         g = gen(blk, si)
         return (S | frozenset(g)) if g else S
 
-    _, ev_in = forward(fn, frozenset(), transfer, lambda a, b: a & b, edge=edge)
+    _, ev_in = forward(fn, frozenset(), transfer, _join_atoms, edge=edge)
     return ev_in
 
 
@@ -190,6 +425,159 @@ def array_type(t):
     return m.group(1).replace('const ', '').strip(), int(m.group(2))
 
 
+def seen_has(seen, tag):
+    return tag in seen
+
+
+def mark(seen, tag):
+    return frozenset(seen) | {tag}
+
+
+def canon_init(i):
+    import json
+    return json.dumps(i, sort_keys=True, default=str)
+
+
+# --------------------------------------------------------------------------
+# value-range invariant of a struct field: the hull of everything the program ever stores into it
+# --------------------------------------------------------------------------
+
+_FR_BUSY = set()
+
+
+def field_range(prog, record, field):
+    """[lo, hi] enclosing every value any store in the program puts into field `record.field`, or None when that
+    cannot be told (the field's address is handed to code that is not understood, compound stores, objects of the
+    record initialised at file scope, ...).  Stores through an out-parameter (`f(&obj.field)` with `*p = v` in f)
+    are followed.  Only for records defined in a .c file.  A reader that has no better fact about the field may assume
+    this range: the field of a live object holds a value some store put there."""
+    if not record or not field or str(record).startswith('<anon'):
+        return None
+    cache = prog.__dict__.setdefault('_h18_field_range', {})
+    key = (record, field)
+    if key in cache:
+        return cache[key]
+    if key in _FR_BUSY:
+        return None
+    _FR_BUSY.add(key)
+    try:
+        cache[key] = _field_range(prog, record, field)
+    finally:
+        _FR_BUSY.discard(key)
+    return cache[key]
+
+
+def _is_field(x, record, field):
+    x = strip(x)
+    return isinstance(x, dict) and x.get('k') == 'member' and x.get('record') == record and x['field'] == field
+
+
+def _field_range(prog, record, field):
+    rec = prog.records.get(record, {})
+    fdef = [f for f in rec.get('fields', []) if f['name'] == field]
+    if not fdef:
+        return None
+    # only records that are private to one translation unit: every store is then in sight (a record declared in a
+    # header may be filled in by other units or by the application)
+    if not str(rec.get('loc', '')).split(':')[0].endswith('.c'):
+        return None
+    ty = (fdef[0].get('type') or '').replace('const ', '').strip()
+    if ty not in TYPE_SIZE and ty not in ('_Bool', 'bool'):
+        return None                         # integers only
+    for g in prog.globals.values():
+        if isinstance(g, dict) and g.get('record') == record and not g.get('ptr') and g.get('init') is not None:
+            return None
+    lo, hi = INF, -INF
+    n = 0
+
+    def add(r):
+        nonlocal lo, hi, n
+        lo, hi, n = min(lo, r[0]), max(hi, r[1]), n + 1
+
+    for f in prog.all_funcs():
+        V = None
+        for e in f.events():
+            if e['ev'] == 'store':
+                if _is_field(e['lhs'], record, field):
+                    if e.get('op') != '=' or 'rhs' not in e:
+                        return None
+                    V = V or view_of(prog, f)
+                    add(V.range(e['rhs'], (e['_b'], e['_i']), frozenset({'#fr'})))
+                    continue
+                # whole-object stores (struct assignment) of the record: values come from another object of the record
+            srcs = []
+            if e['ev'] == 'store' and 'rhs' in e:
+                srcs.append((None, e['rhs']))
+            elif e['ev'] in ('call', 'enter'):
+                srcs += [(i, a) for i, a in enumerate(e.get('args', []))]
+            elif e['ev'] == 'ret' and 'value' in e:
+                srcs.append((None, e['value']))
+            for (ai, s_) in srcs:
+                for y in walk(s_):
+                    if y.get('k') == 'addr' and isinstance(y.get('e'), dict) and _is_field(y['e'], record, field):
+                        # the field's address leaves: only `callee(..., &obj.field, ...)` with the callee storing
+                        # through that parameter (and doing nothing else with it) is understood
+                        if ai is None or strip(s_) is not y or 'callee' not in e:
+                            return None
+                        t = prog.resolve(prog.unit_of(f), e['callee'])
+                        if t is None or not t.blocks or ai >= len(t.params):
+                            return None
+                        r = _out_param_range(prog, t, t.params[ai]['name'])
+                        if r is None:
+                            return None
+                        if r[0] <= r[1]:
+                            add(r)
+    if n == 0:
+        return None
+    return (min(lo, 0), max(hi, 0))         # zero-initialised storage (calloc, static objects) reads 0 before any store
+
+
+def _out_param_range(prog, t, pname):
+    """hull of the values function t stores through its pointer parameter pname; None when the parameter is used
+    in any other way (re-assigned, passed on, compared is fine, read through is fine)"""
+    V = view_of(prog, t)
+    lo, hi = INF, -INF
+    for e in t.events():
+        if e['ev'] == 'store':
+            l = strip(e['lhs'])
+            if isinstance(l, dict) and l.get('k') == 'var' and l['name'] == pname:
+                return None
+            if isinstance(l, dict) and l.get('k') == 'deref' and var_name(l.get('e')) == pname:
+                if e.get('op') != '=' or 'rhs' not in e:
+                    return None
+                r = V.range(e['rhs'], (e['_b'], e['_i']), frozenset({'#fr'}))
+                lo, hi = min(lo, r[0]), max(hi, r[1])
+                continue
+            if 'rhs' in e and any(y.get('k') == 'var' and y['name'] == pname and y.get('vk') == 'param' for y in walk(e['rhs'])) \
+                    and not _only_derefs(e['rhs'], pname):
+                return None
+        elif e['ev'] in ('call', 'enter'):
+            for a in e.get('args', []):
+                if any(y.get('k') == 'var' and y['name'] == pname and y.get('vk') == 'param' for y in walk(a)) and not _only_derefs(a, pname):
+                    return None
+        elif e['ev'] == 'ret' and 'value' in e:
+            if any(y.get('k') == 'var' and y['name'] == pname and y.get('vk') == 'param' for y in walk(e['value'])) and not _only_derefs(e['value'], pname):
+                return None
+    return (lo, hi)
+
+
+def _only_derefs(x, pname):
+    """every occurrence of the parameter in x is under a dereference that reads through it"""
+    def rec(y, under):
+        if isinstance(y, list):
+            return all(rec(z, under) for z in y)
+        if not isinstance(y, dict):
+            return True
+        if y.get('k') == 'var' and y.get('name') == pname:
+            return under
+        if y.get('k') == 'deref':
+            return rec(y.get('e'), True)
+        if y.get('k') in ('load', 'cast', 'paren'):
+            return rec(y.get('e'), under)
+        return all(rec(v, False) for kk, v in y.items() if isinstance(v, (dict, list)) and kk != 'sizeof')
+    return rec(x, False)
+
+
 class View:
     """A function as the rules look at it: atoms, definitions of locals, value ranges."""
 
@@ -202,19 +590,18 @@ class View:
         self.decl = {}
         self.expr_of = {}
         self.root_params = {p['name'] for p in getattr(g, 'params', [])}
+        self.escaped = escaped_locals(g)
         for e in g.events():
-            for x in walk(e):
-                if x.get('k') == 'addr':
-                    v = strip(x['e'])
-                    if isinstance(v, dict) and v.get('k') == 'var':
-                        self.escaped.add(v['name'])
             if e['ev'] == 'store':
                 n = var_name(e['lhs']) if strip(e['lhs']).get('k') == 'var' else None
+                if n is None and plain_lhs(e['lhs']) is not None:
+                    n = plain_lhs(e['lhs'])['name']        # `*&v = x`: a definition of v
                 if n:
                     self.defs.setdefault(n, []).append(e)
-                    r0 = strip(e.get('rhs')) if 'rhs' in e else None
-                    if isinstance(r0, dict) and r0.get('k') == 'member':
-                        self.expr_of.setdefault(canon(r0), r0)
+                    if 'rhs' in e:
+                        for r0 in walk(e['rhs']):
+                            if r0.get('k') == 'member' and _pure_path(r0):
+                                self.expr_of.setdefault(canon(r0), r0)
             elif e['ev'] == 'decl':
                 self.decl[e['name']] = e
         for b in g.blocks.values():
@@ -229,6 +616,7 @@ class View:
                 if isinstance(r, dict) and rc == canon(r):
                     self.expr_of.setdefault(rc, r)
         self._after_dec = {}
+        self._reach = None
 
     # -- atoms -----------------------------------------------------------------
     def atoms(self, point):
@@ -255,6 +643,39 @@ class View:
         return None
 
     # -- definitions -----------------------------------------------------------
+    def defs_at(self, name, point):
+        """the definitions (store events) of the plain local `name` that can reach `point`: a plain assignment
+        replaces the earlier ones, a step or compound assignment adds itself to them.  All definitions when the point
+        is unknown."""
+        if point is None or name not in self.defs:
+            return self.defs.get(name, [])
+        if self._reach is None:
+            alld = []
+            idx = {}
+            for n, ds in self.defs.items():
+                for d in ds:
+                    idx[id(d)] = len(alld)
+                    alld.append((n, d))
+            byname = {}
+            for i, (n, d) in enumerate(alld):
+                byname.setdefault(n, set()).add(i)
+
+            def tr(e, S):
+                i = idx.get(id(e))
+                if i is None:
+                    return S
+                n = alld[i][0]
+                if e.get('op') == '=':
+                    return (S - byname[n]) | {i}
+                return S | {i}
+            _, ev_in = forward(self.g, frozenset(), tr, lambda a, b: a | b)
+            self._reach = (alld, ev_in)
+        alld, ev_in = self._reach
+        S = ev_in.get(point)
+        if S is None:
+            return self.defs.get(name, [])
+        return [alld[i][1] for i in sorted(S) if alld[i][0] == name]
+
     def is_plain_local(self, x):
         x = strip(x)
         return isinstance(x, dict) and x.get('k') == 'var' and x.get('vk') in ('local', 'param') \
@@ -288,7 +709,7 @@ class View:
         expression (constants, ?:, masks, arithmetic, locals through all their definitions)
         intersected with the branch atoms that hold at the point under any spelling of expr."""
         lo, hi = self._raw(expr, point, seen)
-        names = self.spellings(expr)
+        names = {n for n in self.spellings(expr) if intlit(n) is None}      # a literal is not a spelling atoms speak about
         for a in self.atoms(point):
             op, side = a[0], None
             if a[1] in names:
@@ -406,7 +827,7 @@ class View:
             name = x['name']
             if not self.is_plain_local(x) or name in seen:
                 return tr
-            ds = self.defs.get(name)
+            ds = self.defs_at(name, point)
             if not ds:
                 return tr
             lo, hi, up, down = INF, -INF, False, False
@@ -436,7 +857,105 @@ class View:
             if down:
                 lo = -INF
             return (max(lo, tr[0]), min(hi, tr[1]))
+        if k in ('member', 'index') and not seen_has(seen, '#tbl'):
+            vals = self.table_values(x, point, seen)
+            if vals is not None:
+                ints = [strip(v)['v'] for v in vals if isinstance(strip(v), dict) and strip(v).get('k') == 'int']
+                if ints and len(ints) == len(vals):
+                    return (min(ints), max(ints))
+        if k == 'member' and self.prog is not None:
+            fr = field_range(self.prog, x.get('record'), x['field'])
+            if fr is not None:
+                tr = type_range(x.get('type'))
+                return (max(fr[0], tr[0]), min(fr[1], tr[1]))
         return type_range(x.get('type'))
+
+    # -- constant tables ---------------------------------------------------------
+    def _const_global(self, v):
+        """initialiser of the const-qualified file-scope object the variable node v names (None: not such an object)"""
+        if not (isinstance(v, dict) and v.get('k') == 'var' and v.get('vk') in ('global', 'staticlocal')) or self.prog is None:
+            return None
+        if 'const' not in str(v.get('type', '')).split('*')[0]:
+            return None
+        if v.get('vk') == 'staticlocal':
+            d = self.decl.get(v['name'])
+            if d is not None and d.get('static') and isinstance(d.get('init'), dict) and 'const' in str(d.get('type', '')).split('*')[0]:
+                return d['init']
+        inits = [g['init'] for g in self.prog.globals.values()
+                 if isinstance(g, dict) and g.get('name') == v['name'] and isinstance(g.get('init'), dict)
+                 and 'const' in str(g.get('type', '')).split('*')[0]]
+        if not inits or any(canon_init(i) != canon_init(inits[0]) for i in inits[1:]):
+            return None
+        return inits[0]
+
+    def table_values(self, x, point=None, seen=frozenset(), depth=0, env=None):
+        """the initialiser nodes the read `x` can yield when x designates (part of) a const-qualified file-scope
+        object: `T[i].f`, `p->f` with p = &T[i], `T[i]`, a const scalar.  The element index may be any value of
+        its range at `point`.  None when x is not such a read."""
+        x = strip_load(x) if isinstance(x, dict) else x
+        x = strip(x)
+        if not isinstance(x, dict) or depth > 6:
+            return None
+        k = x.get('k')
+        if k == 'var':
+            if x.get('vk') in ('global', 'staticlocal'):
+                i = self._const_global(x)
+                return [i] if i is not None else None
+            return None
+        if k == 'member':
+            if x['arrow']:
+                b = self.resolve(x['base'])
+                if not (isinstance(b, dict) and b.get('k') == 'addr'):
+                    return None
+                base = self.table_values(b['e'], point, seen, depth + 1, env)
+            else:
+                base = self.table_values(x['base'], point, seen, depth + 1, env)
+            if base is None:
+                return None
+            out = []
+            for i in base:
+                if not (isinstance(i, dict) and i.get('k') == 'init' and isinstance(i.get('fields'), dict)):
+                    return None
+                if x['field'] not in i['fields']:
+                    out.append({'k': 'int', 'v': 0})       # not mentioned in the initialiser: zero
+                else:
+                    out.append(i['fields'][x['field']])
+            return out
+        if k == 'index':
+            base = self.table_values(x['base'], point, seen, depth + 1, env)
+            if base is None:
+                return None
+            iv = env.get(var_name(x['idx'])) if env is not None and var_name(x['idx']) else None
+            if iv is not None:
+                lo, hi = iv[0], iv[1]                  # the valuation class of the path being followed (path_must)
+            else:
+                lo, hi = self.range(x['idx'], point, mark(seen, '#tbl')) if point is not None else self._raw(x['idx'], None, mark(seen, '#tbl'))
+            out = []
+            for i in base:
+                if not (isinstance(i, dict) and i.get('k') == 'init' and isinstance(i.get('elems'), list)):
+                    return None
+                n = len(i['elems'])
+                if lo < 0 or hi >= n:
+                    return None
+                out += i['elems'][int(lo):int(hi) + 1]
+            return out
+        return None
+
+    def const_int(self, x, point=None, env=None):
+        """the one integer x evaluates to: a literal, or a read of a const table all of whose candidates agree"""
+        x0 = strip(x)
+        if isinstance(x0, dict) and x0.get('k') == 'int':
+            return x0['v']
+        r = self.resolve(x)
+        if isinstance(r, dict) and r.get('k') == 'int':
+            return r['v']
+        for y in (x, r):
+            vals = self.table_values(y, point, env=env) if isinstance(y, dict) else None
+            if vals:
+                ints = {strip(v)['v'] for v in vals if isinstance(strip(v), dict) and strip(v).get('k') == 'int'}
+                if len(ints) == 1 and all(isinstance(strip(v), dict) and strip(v).get('k') == 'int' for v in vals):
+                    return ints.pop()
+        return None
 
     def implies_ne(self, expr, point, n):
         A = self.atoms(point)
@@ -496,6 +1015,167 @@ class View:
         if isinstance(b, dict) and b.get('k') == 'var':
             return ('var', b['name'])
         return None
+
+
+def counter_offsets(V, is_counter, steppers=frozenset()):
+    """Relational forward analysis for an integer counter that lives in memory (is_counter(lvalue) recognises it):
+    at every point, for the counter itself ('CTR') and for every plain local, the difference to the value the
+    counter had at function entry, where that is the same on every path; 'MAX'/'MIN' are the largest/smallest
+    difference the counter itself had so far on every path (must: the weakest over the paths).
+    The value of an embedded `c++`/`--c` is taken after its side effect, which is an event of its own that
+    precedes the embedding event.  `steppers`: names of functions that may change the counter when called."""
+    g = V.g
+
+    def val(x, S):
+        x = strip(x)
+        if not isinstance(x, dict):
+            return None
+        k = x.get('k')
+        if k == 'var':
+            if V.is_plain_local(x):
+                return S.get(('v', x['name']))
+            return None
+        if k == 'incdec':
+            c = val(x['e'], S)
+            if c is None:
+                return None
+            if x.get('prefix'):
+                return c
+            return c - 1 if x['op'] == '++' else c + 1
+        if k == 'bin' and x['op'] in ('+', '-'):
+            l, r = strip(x['l']), strip(x['r'])
+            if isinstance(r, dict) and r.get('k') == 'int':
+                c = val(l, S)
+                return None if c is None else c + (r['v'] if x['op'] == '+' else -r['v'])
+            if x['op'] == '+' and isinstance(l, dict) and l.get('k') == 'int':
+                c = val(r, S)
+                return None if c is None else c + l['v']
+            return None
+        if k in ('member', 'deref', 'index') and is_counter(x):
+            return S.get('CTR')
+        return None
+
+    def setctr(S, c):
+        if c is None:
+            S.pop('CTR', None)
+            return
+        S['CTR'] = c
+        if 'MAX' in S:
+            S['MAX'] = max(S['MAX'], c)
+        if 'MIN' in S:
+            S['MIN'] = min(S['MIN'], c)
+
+    def tr(e, Sf):
+        if Sf is None:
+            return None
+        ev = e['ev']
+        if ev == 'store':
+            S = dict(Sf)
+            l = plain_lhs(e['lhs']) or strip(deref_norm(V, e['lhs']))
+            op = e.get('op')
+            if isinstance(l, dict) and l.get('k') != 'var' and is_counter(l):
+                c = S.get('CTR')
+                if op == '++':
+                    setctr(S, None if c is None else c + 1)
+                elif op == '--':
+                    setctr(S, None if c is None else c - 1)
+                elif op in ('+=', '-=') and isinstance(strip(e.get('rhs')), dict) and strip(e['rhs']).get('k') == 'int':
+                    d = strip(e['rhs'])['v'] * (1 if op == '+=' else -1)
+                    setctr(S, None if c is None else c + d)
+                elif op == '=' and 'rhs' in e:
+                    setctr(S, val(deref_norm(V, e['rhs']), S))
+                else:
+                    setctr(S, None)
+                return frozenset(S.items())
+            if isinstance(l, dict) and l.get('k') == 'var':
+                n = l['name']
+                old = S.pop(('v', n), None)
+                if not V.is_plain_local(l):
+                    return frozenset(S.items())
+                if op == '=' and 'rhs' in e:
+                    c = val(deref_norm(V, e['rhs']), dict(Sf))
+                    if c is not None:
+                        S[('v', n)] = c
+                elif old is not None and op in ('++', '--'):
+                    S[('v', n)] = old + (1 if op == '++' else -1)
+                elif old is not None and op in ('+=', '-=') and isinstance(strip(e.get('rhs')), dict) and strip(e['rhs']).get('k') == 'int':
+                    S[('v', n)] = old + strip(e['rhs'])['v'] * (1 if op == '+=' else -1)
+                return frozenset(S.items())
+            if isinstance(l, dict) and l.get('k') in ('deref', 'index') and 'bound' not in l:
+                # a store through a pointer of unknown target may hit the counter
+                t = str(l.get('type', ''))
+                if t.replace('const ', '').strip() in ('int', 'unsigned int', 'unsigned', ''):
+                    S.pop('CTR', None)
+                    return frozenset(S.items())
+            return Sf
+        if ev in ('call',):
+            # code that is not seen here may step the counter: library functions (not inlined), user callbacks
+            nm = e.get('callee')
+            opaque = 'fnexpr' in e or (nm is not None and nm in steppers)
+            if opaque:
+                S = dict(Sf)
+                S.pop('CTR', None)
+                return frozenset(S.items())
+        return Sf
+
+    def jn(a, b):
+        if a is None:
+            return b
+        if b is None:
+            return a
+        da, db = dict(a), dict(b)
+        out = {}
+        for k_, v in da.items():
+            if k_ in db:
+                if k_ == 'MAX':
+                    out[k_] = min(v, db[k_])
+                elif k_ == 'MIN':
+                    out[k_] = max(v, db[k_])
+                elif db[k_] == v:
+                    out[k_] = v
+        return frozenset(out.items())
+
+    init = frozenset({'CTR': 0, 'MAX': 0, 'MIN': 0}.items())
+    _, ev_in = forward(g, init, tr, jn)
+    return {k_: (dict(v) if v is not None else {}) for k_, v in ev_in.items()}, val
+
+
+def transitive_writers(prog, record, field):
+    """names of the functions that store to record.field themselves or through direct calls"""
+    cache = prog.__dict__.setdefault('_h18_twriters', {})
+    if (record, field) not in cache:
+        names = {f.name for (f, e) in prog.writers_of(record, field)}
+        work = list(names)
+        while work:
+            n = work.pop()
+            for (c, e) in prog.callers_of(n):
+                if c.name not in names:
+                    names.add(c.name)
+                    work.append(c.name)
+        cache[(record, field)] = names
+    return cache[(record, field)]
+
+
+def deref_norm(V, x):
+    """x with accesses through a pointer that holds a known address written as accesses to the object itself:
+    `*p` / `p->f` with p = &X (a parameter that became the caller's `&obj->field`, or a local assigned such an address
+    once) become `X` / `X.f`."""
+    from ..core import subst
+
+    def fn(n):
+        if n.get('k') == 'deref' and isinstance(n.get('e'), dict):
+            r = V.resolve(n['e']) if V is not None else strip(n['e'])
+            if isinstance(r, dict) and r.get('k') == 'addr' and isinstance(r.get('e'), dict):
+                return deref_norm(V, r['e'])
+        if n.get('k') == 'member' and n.get('arrow') and isinstance(n.get('base'), dict):
+            r = V.resolve(n['base']) if V is not None else strip(n['base'])
+            if isinstance(r, dict) and r.get('k') == 'addr' and isinstance(r.get('e'), dict):
+                out = dict(n)
+                out['arrow'] = False
+                out['base'] = deref_norm(V, r['e'])
+                return out
+        return None
+    return subst(x, fn) if isinstance(x, dict) else x
 
 
 def view_of(prog, g):
@@ -569,7 +1249,7 @@ def site_verdict(prog, f, collect, prove):
         if not evs:
             continue
         v = view_of(prog, g)
-        s3 = collect(v, evs)
+        s3 = collect(v, evs, True)       # in a calling context an argument may have become a constant: still a site
         for key in pending:
             for s in s3.get(key, []):
                 per_key[key].append((r, prove(v, s)))
@@ -662,6 +1342,339 @@ def path_states(fn, init_fact, tr_fact, edge_fact=None, maxstates=600):
                     rc = aval(e['value'], dict(envk)) if 'value' in e else 'void'
                     rets.append((e, fact, rc))
     return rets
+
+
+# --------------------------------------------------------------------------
+# path-sensitive must analysis: must-facts per valuation class of the integer locals that steer the control flow
+# --------------------------------------------------------------------------
+
+def _steering_locals(fn, extra=()):
+    """plain locals and parameters (address never taken) whose value decides the class of the returned value: those
+    returned by the function itself and, transitively, the locals copied into them (result variables of inlined
+    helpers, their return temporaries), as far as they are compared with integer literals or assigned them"""
+    escaped = escaped_locals(fn)
+    locs = set()
+    for e in fn.events():
+        for x in walk(e):
+            if x.get('k') == 'var' and x.get('vk') in ('local', 'param'):
+                locs.add(x['name'])
+    names = set(extra)
+    for e in fn.events():
+        if e['ev'] == 'ret' and 'value' in e and not e.get('chain'):
+            for v in walk(e['value']):
+                if v.get('k') == 'var' and v.get('vk') in ('local', 'param'):
+                    names.add(v['name'])
+    changed = True
+    while changed:
+        changed = False
+        for e in fn.events():
+            if e['ev'] == 'store' and e.get('op') == '=' and 'rhs' in e and strip(e['lhs']).get('k') == 'var' and var_name(e['lhs']) in names:
+                for r in walk(e['rhs']):
+                    if r.get('k') == 'call':
+                        break
+                    if r.get('k') == 'var' and r.get('vk') in ('local', 'param') and r['name'] not in names:
+                        names.add(r['name'])
+                        changed = True
+    return (names & locs) - escaped
+
+
+def _iv_eval(x, env):
+    """(lo, hi, nonzero) of expression x under env {name: (lo, hi, nz)}, or None"""
+    x = strip(x)
+    if not isinstance(x, dict):
+        return None
+    k = x.get('k')
+    if k == 'int':
+        return (x['v'], x['v'], x['v'] != 0)
+    if k == 'null':
+        return (0, 0, False)
+    if k == 'var':
+        return env.get(x['name'])
+    if k == 'un' and x['op'] == '-':
+        v = _iv_eval(x['e'], env)
+        return None if v is None else (-v[1], -v[0], v[2])
+    if k == 'un' and x['op'] == '!':
+        v = _iv_eval(x['e'], env)
+        if v is not None and (v[2] or v[0] > 0 or v[1] < 0):
+            return (0, 0, False)
+        if v is not None and v[0] == v[1] == 0:
+            return (1, 1, True)
+        return (0, 1, False)
+    if k == 'bin' and x['op'] in ('==', '!=', '<', '>', '<=', '>=', '&&', '||'):
+        return (0, 1, False)
+    if k == 'cond':
+        a, b = _iv_eval(x['a'], env), _iv_eval(x['b'], env)
+        if a is None or b is None:
+            return None
+        return (min(a[0], b[0]), max(a[1], b[1]), a[2] and b[2])
+    if k == 'addr':
+        return (-INF, INF, True)
+    return None
+
+
+def _iv_refine(v, op, c):
+    lo, hi, nz = v
+    if op == '==':
+        if c < lo or c > hi or (nz and c == 0):
+            return None
+        return (c, c, c != 0)
+    if op == '!=':
+        if lo == hi == c:
+            return None
+        if c == lo:
+            lo += 1
+        if c == hi:
+            hi -= 1
+        if c == 0:
+            nz = True
+    elif op == '<':
+        hi = min(hi, c - 1)
+    elif op == '<=':
+        hi = min(hi, c)
+    elif op == '>':
+        lo = max(lo, c + 1)
+    elif op == '>=':
+        lo = max(lo, c)
+    else:
+        return v
+    if lo > hi or (nz and lo == hi == 0):
+        return None
+    if lo > 0 or hi < 0:
+        nz = True
+    return (lo, hi, nz)
+
+
+TOPV = (-INF, INF, False)
+
+
+def path_must(fn, init_fact, tr_fact, meet, edge_fact=None, maxstates=48, extra=(), with_env=False):
+    """Must-facts along the paths of fn, kept apart per valuation class (interval and non-zero-ness) of the locals that
+    steer control flow, so that correlated branches (`if (ret == 0) {...} return ret;`, `if (pid > 0) ... if (pid < 0)`)
+    are followed and infeasible paths dropped.
+       tr_fact(event, fact) -> fact;   meet(fact, fact) -> fact (join of two paths in the same class);
+       edge_fact(block, succ index, atoms, fact) -> fact or None (infeasible);
+       with_env: both also receive the class {local: (lo, hi, non-zero)} as last argument.
+    `extra`: further locals to keep apart (a loop index over a small const table: the loop is then followed
+    iteration by iteration, as stepping a known small value keeps it known).
+    Returns [(ret event | None for the end of a void function, fact, 'ok' | 'fail' | 'maybe')]: the class of the returned
+    value (0 / provably non-zero / unknown)."""
+    names = _steering_locals(fn, extra)
+
+    def key(env):
+        return tuple(sorted((n, v) for n, v in env.items() if v != TOPV))
+
+    def norm(states):
+        out = {}
+        for (ck, fact) in states:
+            out[ck] = fact if ck not in out else meet(out[ck], fact)
+        if len(out) > maxstates:
+            f = None
+            for v in out.values():
+                f = v if f is None else meet(f, v)
+            out = {(): f}
+        return frozenset(out.items())
+
+    def transfer(e, S):
+        out = []
+        for (ck, fact) in S:
+            env = dict(ck)
+            f2 = tr_fact(e, fact, env) if with_env else tr_fact(e, fact)
+            if e['ev'] == 'store':
+                l = plain_lhs(e['lhs']) or strip(e['lhs'])
+                if isinstance(l, dict) and l.get('k') == 'var' and l['name'] in names:
+                    op = e.get('op')
+                    v = _iv_eval(e['rhs'], env) if (op == '=' and 'rhs' in e) else None
+                    old = env.get(l['name'])
+                    d = None
+                    if op in ('++', '--'):
+                        d = 1 if op == '++' else -1
+                    elif op in ('+=', '-=') and isinstance(strip(e.get('rhs')), dict) and strip(e['rhs']).get('k') == 'int':
+                        d = strip(e['rhs'])['v'] * (1 if op == '+=' else -1)
+                    if d is not None and old is not None and abs(old[0]) <= 64 and abs(old[1]) <= 64:
+                        v = (old[0] + d, old[1] + d, old[0] + d > 0 or old[1] + d < 0)
+                    if v is None or v == TOPV:
+                        env.pop(l['name'], None)
+                    else:
+                        env[l['name']] = v
+            elif e['ev'] == 'leave':
+                # the result of an inlined call is dropped by the caller: a void wrapper around a fallible helper is
+                # (like analyses.delta_analysis) taken to be used where the helper cannot fail
+                if e.get('ret_unused') and e.get('retvar') and e.get('rettype') == 'int':
+                    v = env.get(e['retvar'])
+                    if v is not None and (v[2] or v[0] > 0 or v[1] < 0):
+                        continue
+            out.append((key(env), f2))
+        return norm(out)
+
+    def edge(blk, si, S):
+        if not blk.term or len(blk.succ) < 2 or blk.term.get('cls') in ('SwitchStmt', 'MethodDispatch'):
+            return S
+        c = blk.term.get('cond')
+        if c is None:
+            return S
+        atoms = _cond_atoms(c, si == 0)
+        out = []
+        for (ck, fact) in S:
+            env = dict(ck)
+            dead = False
+            for (op, lc, rc, l, r) in atoms:
+                if op == 'const':
+                    if lc == 'False':
+                        dead = True
+                    continue
+                n = intlit(rc)
+                if n is None or lc not in names:
+                    continue
+                v = _iv_refine(env.get(lc, TOPV), op, n)
+                if v is None:
+                    dead = True
+                    break
+                env[lc] = v
+            if dead:
+                continue
+            if not atoms:
+                # a condition that does not normalise (|| taken, && not taken): decide it as a whole where possible
+                v = _iv_eval(c, env)
+                if v is not None and (v[0] == v[1] == 0) and si == 0:
+                    continue
+                if v is not None and (v[2] or v[0] > 0 or v[1] < 0) and si != 0:
+                    continue
+            f2 = fact
+            if edge_fact:
+                f2 = edge_fact(blk, si, atoms, fact, env) if with_env else edge_fact(blk, si, atoms, fact)
+            if f2 is None:
+                continue
+            out.append((key(env), f2))
+        return norm(out) if out else None
+
+    def jn(a, b):
+        return norm(list(a) + list(b))
+
+    _, ev_in = forward(fn, frozenset([((), init_fact)]), transfer, jn, edge=edge)
+    rets = []
+    if fn.ret == 'void':
+        for (ck, fact) in ev_in.get((fn.exit, 0)) or ():
+            rets.append((None, fact, 'ok'))
+        return rets
+    for b, blk in fn.blocks.items():
+        for i, e in enumerate(blk.events):
+            if e['ev'] == 'ret' and not e.get('chain'):
+                for (ck, fact) in ev_in.get((b, i)) or ():
+                    v = _iv_eval(e['value'], dict(ck)) if 'value' in e else (0, 0, False)
+                    if v is None:
+                        cls = 'maybe'
+                    elif v[0] == v[1] == 0:
+                        cls = 'ok'
+                    elif v[2] or v[0] > 0 or v[1] < 0:
+                        cls = 'fail'
+                    else:
+                        cls = 'maybe'
+                    rets.append((e, fact, cls))
+    return rets
+
+
+# --------------------------------------------------------------------------
+# INIT-COMPLETE with path-sensitive "written on every success path" (local variant of generic.init_complete)
+# --------------------------------------------------------------------------
+
+def must_written_paths(fn, record, success_only=True):
+    """generic.must_written decided per path instead of per return statement: the fields of `record` objects written on
+    every path of (inlined) fn that ends in success.  A `return ret;` shared by the failing and the succeeding paths,
+    or a write under `if (pid > 0)` followed by `if (pid < 0) return pid; return 0;`, no longer hides the write."""
+    from ..generic import field_accesses
+
+    def tr(e, S):
+        for (k, v, f) in field_accesses(e, record):
+            if k == 'w':
+                S = S | {('*', f)}
+        return S
+    rets = path_must(fn, frozenset(), tr, lambda a, b: a & b)
+    result, seen = None, set()
+    for (e, fact, cls) in rets:
+        if success_only and cls == 'fail':
+            continue
+        seen.add(id(e))
+        result = fact if result is None else (result & fact)
+    return (result or frozenset()), len(seen)
+
+
+def init_complete(ctx, rid, kinds=None):
+    """generic.init_complete with must_written_paths in place of generic.must_written (same instances, same texts)."""
+    from .. import generic as G
+    from ..core import Inliner, relpath
+    prog = ctx.prog
+    mpriv = G._method_private(prog)
+    tables = sorted(prog.method_tables())
+    n = 0
+    for K in G.OBJECT_KINDS:
+        if kinds is not None and K['rec'] not in kinds:
+            continue
+        rec = K['rec']
+        if rec not in prog.records or 'fields' not in prog.records[rec]:
+            if K.get('optional'):
+                continue
+            raise AnalysisBroken('record %s not found' % rec)
+        regs = [r for r in K['reg'] if prog.has_fn(r)]
+        if not regs:
+            if K.get('optional'):
+                continue
+            raise AnalysisBroken('register function of %s not found' % rec)
+        fields = {f['name']: f for f in prog.records[rec]['fields']}
+        private = [f for f in fields if f not in K['user'] and fields[f].get('record') not in G.KIND_RECORDS]
+        variants = tables if K.get('per_method') else [None]
+        for table in variants:
+            inl = Inliner(prog, method_table=table, expand_methods=table is not None)
+            mw_init = frozenset()
+            if K['init'] and prog.has_fn(K['init']):
+                mw_init, _ = must_written_paths(inl.inline(prog.fn(K['init'])), rec, success_only=False)
+            mw_reg = None
+            rbw_reg = {}
+            for r in regs:
+                g = inl.inline(prog.fn(r))
+                w, nret = must_written_paths(g, rec)
+                if nret == 0:
+                    raise AnalysisBroken('%s has no success return' % r)
+                mw_reg = w if mw_reg is None else (mw_reg & w)
+                for fld, evs in G.read_before_write(g, rec).items():
+                    rbw_reg.setdefault(fld, []).extend((r, e) for e in evs)
+            rbw = {}
+            skip = set(regs) | ({K['init']} if K['init'] else set())
+            for f in prog.all_funcs():
+                if f.name in skip:
+                    continue
+                if table is not None and f.q in mpriv and table not in mpriv[f.q]:
+                    continue
+                for fld, evs in G.read_before_write(f, rec).items():
+                    rbw.setdefault(fld, []).extend((f.q, e) for e in evs)
+            for fld in sorted(set(rbw) | set(rbw_reg)):
+                topf = fld.split('.')[0]
+                if topf not in private:
+                    continue
+                readers = rbw.get(fld, [])
+                rreaders = rbw_reg.get(fld, [])
+                ok = True
+                why = ''
+                if rreaders and not G._covers(mw_init, '*', fld):
+                    ok = False
+                    why = 'read by %s before any write; %s does not initialise it' % (rreaders[0][0], K['init'] or 'no INIT function')
+                if readers and not G._covers(mw_init | mw_reg, '*', fld):
+                    real = [(q, e) for (q, e) in readers if not G._only_called_after_write(prog, q, regs, rec, fld)]
+                    if real:
+                        ok = False
+                        why = 'read by %s (%s) but not written on every success path of %s nor by %s' % (
+                            real[0][0], relpath(real[0][1]['loc']), '/'.join(regs), K['init'] or 'an INIT function')
+                        readers = real
+                inst = '%s.%s%s' % (rec, fld, (' [%s]' % table.replace('iv_fd_poll_method_', '')) if table else '')
+                if not ok and topf in K.get('guarded', {}):
+                    ctx.exempt(rid, inst, K['guarded'][topf])
+                    ok = True
+                    why = 'guarded: ' + K['guarded'][topf]
+                loc = (readers or rreaders)[0][1]['loc']
+                ctx.ob(rid, inst, ok, loc=loc,
+                       detail=why or 'written by %s before any library read' % ('INIT' if G._covers(mw_init, '*', fld) else 'registration'),
+                       fn=(readers or rreaders)[0][0])
+                n += 1
+    return n
 
 
 # --------------------------------------------------------------------------
